@@ -58,6 +58,15 @@ def main():
                                 (version, ts, magic_int, co, pypy, ss, sip) = load_module_from_file_object(fp, filename=path)
                     off = payload_offset(data, version)
                     r = rec_value(path, magic_int, version, data[off:], fp.told - off, co, 1)
+                    if n_ % 3 == 2:
+                        # the tree must not depend on the (output) argument: load once more without it and compare with host kinds kept
+                        # apart (a Python 2 byte string may be held as text or as bytes, but the same way both times)
+                        with xd.quiet(), xd.forced_portable():
+                            co_b = load_module_from_file_object(KeepTell(data), filename=path)[3]
+                        cx = mproj.Ctx(tuple(version[:2]) >= (3, 0), mproj.layout_of(version, magic_int), "xdis")
+                        cx.host_kinds = True
+                        if mproj.tokens(co, cx, []) != mproj.tokens(co_b, cx, []):
+                            r["argdep"] = 1
                 except Exception as e:
                     import traceback
                     r = {"id": path, "loaderror": "%s: %s" % (type(e).__name__, str(e)[-300:]), "tb": traceback.format_exc()[-500:]}
